@@ -189,8 +189,12 @@ def main():
     ap.add_argument("--seed", type=int, default=1)
     ap.add_argument("--files", default="")
     ap.add_argument("--examples", action="store_true")
+    ap.add_argument("--root", default="")
     ap.add_argument("--out", default=os.path.join(VERIF, "mutation_report.json"))
     a = ap.parse_args()
+    if a.root:
+        global ROOT
+        ROOT = a.root
     r = random.Random(a.seed)
     allc = []
     if a.examples:
